@@ -118,6 +118,13 @@ def gen_tree(r, max_files=12):
             mode = r.choice([0o444, 0o600, 0o755, 0o400])
         tree.append(['f', name, E(content), mode])
         files.append((name, target, cname))
+        if target and r.random() < 0.3:
+            # a sibling that follows a common temp / backup naming convention: user data, never a target
+            sib = name + r.choice(['.tmp', '.bak', '.orig', '~', '.new', '.swp', '.old', '.min', '.tmp~'])
+            if sib not in used:
+                used.add(sib)
+                tree.append(['f', sib, E(pick_content(r, False)[1]), None])
+                files.append((sib, False, 'sibling'))
     # area no path argument names
     ext_files, ext_dirs = [], []
     if r.random() < 0.5:
